@@ -10,7 +10,6 @@ import (
 	"github.com/quay/claircore"
 	"github.com/quay/claircore/indexer"
 	"github.com/quay/claircore/indexer/controller"
-	"github.com/quay/claircore/internal/verifhook"
 	"github.com/quay/claircore/verifharness/internal/memstore"
 )
 
@@ -92,10 +91,7 @@ func RunScript(script []RunIter) string {
 		}
 		return memstore.Verdict{}
 	}
-	verifhook.Install(func(site, key string) {
-		if site != "controller.run.retry" {
-			return
-		}
+	hook := func(key string) {
 		d, err := time.ParseDuration(key)
 		switch {
 		case err != nil:
@@ -110,8 +106,9 @@ func RunScript(script []RunIter) string {
 		if cur.CancelInWait {
 			cancel()
 		}
-	})
-	defer verifhook.Install(nil)
+	}
+	retryHook.Store(&hook)
+	defer retryHook.Store(nil)
 	table := map[controller.State]func(context.Context, *controller.Controller) (controller.State, error){}
 	for name, st := range stateByName {
 		if st == controller.Terminal {
